@@ -106,6 +106,7 @@ func c15(c *Ctx) {
 	progs = append(progs, largeProgs("base pointer")...)
 	multiFunctionFiles(c.Out, progs, "bp", 60)
 	bpPrintedFrames(c.Out, progs, 200)
+	bpListedFile(c.Out)
 	frameHistories(c, map[bool]int{false: 150, true: 3000}[c.Thorough()], 1501, true, "Frames.v") // base-pointer writers with stack locals
 	emitPipelineCases(c, progs, []pipeCheck{chkDiff, chkBP, chkBind}, 20, func(p *Prog, ob *Observed) bool {
 		return p.Tags["explicit-bp"] || p.Tags["pressure15"]
